@@ -293,3 +293,36 @@ func (x *Exec) lockEvent(st *State, name string, recv *Val) {
 		x.heapSet(st, "ghost.lockdepth", x.c.Sub(d, x.c.Int(1)))
 	}
 }
+
+func init() {
+	// sort.Search(n, f): smallest index in [0, n] from which on f holds (f assumed monotone; this is
+	// the documented library contract): no index below the result satisfies f, the result does if < n.
+	libModels["sort.Search"] = func(x *Exec, st *State, e *ast.CallExpr, recv *Val) []Val {
+		c := x.c
+		n := x.toIdx(st, x.expr(st, e.Args[0]))
+		fl, ok := ast.Unparen(e.Args[1]).(*ast.FuncLit)
+		if !ok || len(fl.Body.List) != 1 {
+			x.fail("sort.Search: the predicate must be a function literal with a single return statement")
+		}
+		ret, ok := fl.Body.List[0].(*ast.ReturnStmt)
+		if !ok || len(ret.Results) != 1 {
+			x.fail("sort.Search: the predicate must be a function literal with a single return statement")
+		}
+		obj := x.info.Defs[fl.Type.Params.List[0].Names[0]]
+		pred := func(i *Term) *Term {
+			qs := st.clone()
+			qs.vars[obj] = Val{Typ: types.Typ[types.Int], T: i}
+			x.inQuant++
+			defer func() { x.inQuant-- }()
+			return x.expr(qs, ret.Results[0]).T
+		}
+		j := x.freshVal(st, "search", types.Typ[types.Int])
+		zero := x.idxLit(0)
+		x.assume(st, c.And(x.idxLe(zero, j.T), x.idxLe(j.T, n)))
+		x.assume(st, c.Implies(x.idxLt(j.T, n), pred(j.T)))
+		bv := c.Bound("i", x.idxSort())
+		x.assume(st, c.Forall([]*Term{bv}, c.Implies(c.And(x.idxLe(zero, bv), x.idxLt(bv, j.T)), c.Not(pred(bv)))))
+		x.assumed["sort.Search: library contract (first index satisfying a monotone predicate)"] = true
+		return []Val{j}
+	}
+}
